@@ -286,6 +286,43 @@ def written_string_formulas(path: Path) -> dict:
     return out
 
 
+def relabelled_fixture_formulas(name: str, path: Path) -> dict:
+    """A document written by Numbers (it holds reference kinds the library cannot write: absolute references to header
+    labels, label spans, ...) whose header labels are changed through Table.write to labels with operator characters,
+    read on the open document and again after save + reopen.  -> {formula: [fixture, new label, table, row, col]}"""
+    from numbers_parser import Document
+    doc = Document(str(common.REPO / "tests" / "data" / name))
+    changed = []
+    for sh in doc.sheets:
+        for tb in sh.tables:
+            nhr, nhc = tb.num_header_rows, tb.num_header_cols
+            cells = [(r, c) for r in range(min(nhr, tb.num_rows)) for c in range(tb.num_cols)] + \
+                    [(r, c) for r in range(nhr, tb.num_rows) for c in range(min(nhc, tb.num_cols))]
+            for k, (r, c) in enumerate(cells[:60]):
+                v = tb.cell(r, c).value
+                if isinstance(v, str) and v and v[0] not in "=" and not any(ch in v for ch in "'\"#{}()"):
+                    new = v.replace(" ", "-") if " " in v else v + "-" + "x+y"[k % 3]
+                    tb.write(r, c, new)
+                    changed.append(new)
+    out = {}
+    def collect(d, stage):
+        for sh in d.sheets:
+            for tb in sh.tables:
+                for row in tb.iter_rows():
+                    for c in row:
+                        try:
+                            f = c.formula
+                        except Exception:  # noqa: BLE001  (reader failures belong to C08/C09)
+                            continue
+                        if f is not None and f not in out:
+                            lab = next((x for x in changed if x in f), None)
+                            out[f] = [{"label": lab, "fixture": name, "stage": stage}, tb.name, c.row, c.col]
+    collect(doc, "open")
+    doc.save(str(path))
+    collect(Document(str(path)), "reopened")
+    return out
+
+
 def written_document_formulas(ctx: Ctx):
     """Documents written by the library in this run, then read back: references to header labels
     (plain, with operator characters, with spaces/apostrophes/other glyphs), unique and not unique
@@ -306,6 +343,18 @@ def written_document_formulas(ctx: Ctx):
                     continue
                 for f, where in got.items():
                     forms.setdefault(f, [recipe] + where)
+        for fx in (["create-formulas.numbers"] if ctx.quick else ["create-formulas.numbers", "issue-54.numbers", "test-all-formulas.numbers", "test-extra-formulas.numbers"]):
+            if not (common.REPO / "tests" / "data" / fx).exists():
+                continue
+            try:
+                got = relabelled_fixture_formulas(fx, ctx.tmp / f"c18_relabelled_{fx}")
+            except Exception as e:  # noqa: BLE001
+                ctx.dist("written_document_recipe_failed")
+                ctx.notes.append(f"relabelled fixture {fx} failed: {type(e).__name__}: {e}"[:300])
+                continue
+            ctx.dist("relabelled_fixture_formulas", len(got))
+            for f, where in got.items():
+                forms.setdefault(f, where)
         recipe = {"label": None, "string_literals": True}
         try:
             got = written_string_formulas(ctx.tmp / "c18_written_strings.numbers")
